@@ -14,7 +14,7 @@ def evaluate(root, props=None):
     """Run the quick rules of the given properties against the tree at ``root``.
     Returns {prop: {"violated": sorted keys, "n": obligations} | {"error": text}}."""
     from verif_sa.facts import Repo
-    from verif_sa.core import AnalysisError
+    from verif_sa.core import AnalysisError, classify
     from rules.registry import PROPERTIES
     out = {}
     try:
@@ -43,10 +43,13 @@ def evaluate(root, props=None):
                 if isinstance(res, Exception):
                     errs.append(str(res))
                     continue
+                classify(res)
                 for o in res:
                     n += 1
-                    if not o.ok:
+                    if o.status == "violated":
                         viol.add(o.key)
+                    elif o.status == "undecided":
+                        errs.append("UNDECIDED " + o.key)
             if errs and not viol:
                 out[p] = {"error": "; ".join(errs)}
             else:
